@@ -962,7 +962,8 @@ impl TryFrom<&str> for LocationPrefix {
     type Error = &'static str;
 
     fn try_from(value: &str) -> Result<Self, Self::Error> {
-        let c = value.chars().nth(0);
+        // Letter case is not significant
+        let c = value.chars().nth(0).map(|c| c.to_ascii_uppercase());
         LocationPrefix::try_from(c)
     }
 }
@@ -1010,7 +1011,8 @@ impl TryFrom<&str> for SizePrefix {
     type Error = &'static str;
 
     fn try_from(value: &str) -> Result<Self, Self::Error> {
-        let c = value.chars().nth(0);
+        // Letter case is not significant
+        let c = value.chars().nth(0).map(|c| c.to_ascii_uppercase());
         SizePrefix::try_from(c)
     }
 }
@@ -1368,9 +1370,9 @@ pub struct AddressAssignment {
 }
 
 lazy_static! {
-    static ref DIRECT_ADDRESS_UNASSIGNED: Regex = Regex::new(r"%([IQM])\*").unwrap();
+    static ref DIRECT_ADDRESS_UNASSIGNED: Regex = Regex::new(r"(?i)%([IQM])\*").unwrap();
     static ref DIRECT_ADDRESS: Regex =
-        Regex::new(r"%([IQM])([XBWDL])?([0-9]+(\.[0-9]+)*)").unwrap();
+        Regex::new(r"(?i)%([IQM])([XBWDL])?([0-9]+(\.[0-9]+)*)").unwrap();
 }
 
 impl TryFrom<&str> for AddressAssignment {
